@@ -31,4 +31,23 @@ theorem fault_isolated_run (W : World) (hW : NoActions W) (hP : PosDur W) (tl : 
   refine ⟨_, _, _, _, _, _, (alone W (frameOf tl) n bad).toList, h2, h1, ?_, h4, h3, hres⟩
   cases alone W (frameOf tl) n bad <;> simp
 
+theorem Frame.after_now (f : Frame) (n : Nat) : (f.after n).now = f.now + n := by
+  induction n with
+  | zero => rfl
+  | succ m ih => simp only [Frame.after, Frame.next, ih]; omega
+
+/-- **The timeline keeps ticking and its time advances by one tick per tick, for the whole run**: in tolerant mode,
+    whatever tracks fail and whenever, after `n` ticks the timeline's time is `n` ticks later and every one of the
+    `n` ticks returned normally. -/
+theorem time_advances_over_the_run (W : World) (hW : NoActions W) (hP : PosDur W) (tl : TL)
+    (hnd : (tl.tracks.map Track.id).Nodup) (htol : tl.tolerant = true) (hs : tl.stopWhenDone = false) (n : Nat) :
+    (ticks W n tl).now = tl.now + n ∧ ∀ k, k < n → (tickTL W (ticks W k tl)).res = .ok := by
+  constructor
+  · obtain ⟨h1, _, _⟩ := run_is_merge W hW hP tl hnd (Or.inl htol) hs n
+    rw [h1]
+    show ((frameOf tl).after n).now = tl.now + n
+    rw [Frame.after_now]; rfl
+  · intro k _
+    exact (run_is_merge W hW hP tl hnd (Or.inl htol) hs k).2.2
+
 end IsobarV.C17
